@@ -7,7 +7,14 @@ from oracle_util import *
 RULE = ("texts rendered from random term lists of the univariate grammar (1-12 terms, powers 0-40 with repeats, all decimal "
         "spellings, implicit coefficients, leading sign, exponents with leading zeros, 13 variable letters incl. non-ASCII, "
         "random Unicode white space between tokens) through both parse entry points; coefficient vectors evaluated through "
-        "the three evaluation entry points; character-class table. Non-trivial = an accepted text with at least two terms, "
+        "the evaluation entry points (free function, eval_univariate, eval_multivariate with the binding under the variable's own "
+        "name / another name / in several containers, f32 and i32 points) for every variable letter and for constants; "
+        "vector lengths 0..40, 47..49, 63..65, 127..129, 255..258, 300; points next to 1, -1 and 0 at every distance "
+        "10^-1..10^-17, 10^-k down to subnormals, 10^k up to 10^300, powers of two 2^-1074..2^1023; eval_multivariate with "
+        "0..4 bindings; texts of 13..40, 64, 100, 255..257, 300 terms; exponents 41..300, the powers of two up to 65536 with "
+        "long runs of leading zeros; 13..19-digit coefficient spellings; parse+eval with 25 alphabetic characters of every "
+        "UTF-8 width / category and all 25 Unicode white-space characters; every parse result also through the free "
+        "function on &str/&String/String, the trait, the re-export, Deref and PartialEq<Vec<f64>>; character-class table. Non-trivial = an accepted text with at least two terms, "
         "or an evaluation of a polynomial of degree >= 1; distinct = distinct request lines")
 
 def compare(req, impl, model):
@@ -24,6 +31,13 @@ def compare(req, impl, model):
                 return f"coefficient {k}: impl {tok_float(x)!r} model {num_float(y)!r} ({y})"
         return None
     return default_compare(req, impl, model)
+
+def _fl(q):
+    """a rational for a message (never raises: values beyond the binary64 range are shown by sign and size)"""
+    try:
+        return repr(float(q))
+    except OverflowError:
+        return ("-" if q < 0 else "") + "2^%d" % (abs(q.numerator).bit_length() - abs(q.denominator).bit_length())
 
 def _intended(extra):
     n = int(extra[0]); dense = {}; absd = {}; cnt = {}
@@ -45,6 +59,13 @@ def oracle(req, impl):
         t = impl.split()
         if t[0] != "ok":
             return f"a string of the documented grammar was not accepted: {impl}"
+        # the variable reported is the (single) letter of the text, none for a constant text
+        text, _ = read_string(head, 2)
+        letters = {c for c in text if c.isalpha()}
+        if len(letters) <= 1:
+            want_var = str(ord(next(iter(letters)))) if letters else "-"
+            if t[1] != want_var:
+                return f"variable reported as {t[1]}, the text's variable is {want_var}"
         n = int(t[2]); cs = t[3:]
         if n != max(dense, default=0) + 1:
             return f"coefficient vector has length {n}, highest power is {max(dense, default=0)}"
@@ -55,7 +76,7 @@ def oracle(req, impl):
             want = dense.get(k, Fraction(0))
             tol = 2 * U * absd.get(k, 0) * (cnt.get(k, 0) + 1)
             if abs(got - want) > tol:
-                return f"coefficient of power {k} is {float(got)!r}, the string says {float(want)!r}"
+                return f"coefficient of power {k} is {_fl(got)}, the string says {_fl(want)}"
         return None
     if cmd == "pe":
         dense, absd, cnt = _intended(extra)
@@ -72,25 +93,67 @@ def oracle(req, impl):
             big = max([abs(x) ** k for k in absd] + [scale])
             return None if big > Fraction(2) ** 1000 else "value is not finite"
         tol = 64 * U * (len(extra) + 2) * scale + Fraction(1, 2 ** 1000)
+        # x^k by repeated squaring carries a relative error of up to ~k units of roundoff
+        tol += 4 * U * sum(k * absd[k] * abs(x) ** k for k in absd)
+        tiny = Fraction(1, 2 ** 900)
+        tol += sum(absd[k] * abs(x) ** k for k in absd if 0 < abs(x) ** k < tiny or 0 < absd[k] * abs(x) ** k < tiny)
         if abs(got - want) > tol:
-            return f"value at {float(x)!r} is {float(got)!r}, the string means {float(want)!r}"
+            return f"value at {_fl(x)} is {_fl(got)}, the string means {_fl(want)}"
         return None
     if cmd == "eval":
         # eval <entry> S <var> <n> c… <x>
         n = int(head[4]); cs = [frac_of_bits(b) for b in head[5:5 + n]]; x = frac_of_bits(head[5 + n])
         t = impl.split()
         if t[0] != "ok":
+            if head[1] == "3":
+                return None  # a binding under another name may be refused; a value, if any, is judged below
             return f"evaluation failed: {impl}"
-        got = tok_frac(t[1])
-        want = sum(c * x ** k for k, c in enumerate(cs))
-        scale = sum(abs(c) * abs(x) ** k for k, c in enumerate(cs))
-        if got is None:
-            big = max([abs(x) ** k for k in range(len(cs))] + [scale])
-            return None if big > Fraction(2) ** 1000 else "value is not finite"
-        tol = 64 * U * (n + 2) * scale + Fraction(1, 2 ** 1000)
-        if abs(got - want) > tol:
-            return f"eval at {float(x)!r} is {float(got)!r}, sum c_k x^k is {float(want)!r}"
-        return None
+        return _judge_value(cs, x, t[1])
+    if cmd == "evalm":
+        # evalm S <var> <n> c… <k> {<name> <x>}*
+        n = int(head[3]); cs = [frac_of_bits(b) for b in head[4:4 + n]]
+        var = head[2]
+        i = 4 + n
+        k = int(head[i]); i += 1
+        binds = {}
+        for _ in range(k):
+            name, i = read_string(head, i)
+            binds[name] = frac_of_bits(head[i]); i += 1
+        t = impl.split()
+        if len(binds) == 1:
+            if t[0] != "ok":
+                return f"evaluation with exactly one binding failed: {impl}"
+            return _judge_value(cs, next(iter(binds.values())), t[1])
+        if t[0] != "ok":
+            return None
+        # a value although the bindings do not name exactly one variable: it can only be the value at the binding of
+        # the polynomial's own variable
+        own = chr(int(var)) if var != "-" else None
+        if own in binds:
+            return _judge_value(cs, binds[own], t[1])
+        if all(c == 0 for c in cs[1:]):
+            return _judge_value(cs, Fraction(0), t[1])
+        return f"a value ({impl}) although no binding names the variable"
+    return None
+
+def _judge_value(cs, x, tok):
+    n = len(cs)
+    got = tok_frac(tok)
+    want = sum(c * x ** k for k, c in enumerate(cs))
+    pw = [abs(x) ** k for k in range(n)]
+    scale = sum(abs(c) * p for c, p in zip(cs, pw))
+    if got is None:
+        big = max(pw + [scale])
+        return None if big > Fraction(2) ** 1000 else "value is not finite"
+    tol = 64 * U * (n + 2) * scale + Fraction(1, 2 ** 1000)
+    # x^k by repeated squaring carries a relative error of up to ~k units of roundoff
+    tol += 4 * U * sum(k * abs(c) * p for k, (c, p) in enumerate(zip(cs, pw)))
+    # a power below the normal range of binary64 may be lost entirely (underflow is not a wrong sum); a product
+    # c_k x^k below the normal range likewise
+    tiny = Fraction(1, 2 ** 900)
+    tol += sum(abs(c) * p for c, p in zip(cs, pw) if 0 < p < tiny or 0 < abs(c) * p < tiny)
+    if abs(got - want) > tol:
+        return f"eval at {_fl(x)} is {_fl(got)}, sum c_k x^k is {_fl(want)}"
     return None
 
 def nontrivial(req, model):
@@ -99,6 +162,8 @@ def nontrivial(req, model):
         return model.startswith("ok") and " | " in req and int(req.split(" | ")[1].split()[0]) >= 2
     if r[0] == "eval":
         return int(r[4]) >= 2
+    if r[0] == "evalm":
+        return int(r[3]) >= 2
     if r[0] == "pe":
         return True
     return False
